@@ -18,6 +18,7 @@ RULE = ("stateless sequence exploration: histories [S..] and [S,U,S..] of update
         "wrappers on different matrices with interleaved solves; trans N/T/H; update kinds same / same class other values / "
         "other class; inner solvers: counting exact reference, DenseLU, DenseQR, SparseLU. A history is non-trivial if "
         "it contains at least two solves on a matrix that is not diagonal; distinct by (matrix, op list)")
+RULE += " Extended in seeding rounds 6-7:  non-singular matrices with zero diagonal entries; the wrapper handed csr/csc/coo containers; loads of size 1e4 with reuse demanded after a complex multiple of a real load."
 ASSUMPTIONS = ["3x3 well-conditioned value tables (diagonally dominant): the property is about the wrapper's "
                "bookkeeping, which does not depend on n once decoupled/coupled dofs and all patterns are present",
                "reuse is demanded only where every documented reading (symmetric / Hermitian column of the table in "
